@@ -121,6 +121,7 @@ def run(ctx):
     euler_formula(ctx, g)
     symbol_genus(ctx, g)
     dual_algebra(ctx, g)
+    boundary_shape(ctx, g)
 
 
 def loopless_test(ctx, g):
@@ -286,6 +287,73 @@ def dual_algebra(ctx, g):
                             bad = bad or "for dim %d the %s map of the dual sends index %d to %s, expected %s" % (n, which, i, got, want)
     ctx.ob("T4-dual-algebra", b.name, "op(n - i, d) / v(n - i - 1, n - i, d)", "ok" if not bad else "violation",
            "indices are reversed consistently for operations and branching numbers (dim 1..4)" if not bad else bad)
+
+
+def boundary_shape(ctx, g):
+    """boundary components of the orbifold symbol: best_cyclic picks the lexicographically LARGEST of ALL rotations of a corner sequence (so the
+    symbol does not depend on where the trace started); trace_boundary starts at every mirror chamber (op(i, d) == d) that was not seen,
+    turns to the next index pair in the direction given by the orientation (i+1 or i+2 mod 3), and walks with `opposite`, recording
+    every corner with v > 1, until it meets a seen (index, chamber) again; the components are sorted descending"""
+    ctx.clauses.append("boundary tracing: best rotation = max over all rotations; start at unseen mirror chambers; direction (i+1 | i+2) mod 3 by orientation; third index k := 3 - j - k (T9/T4)")
+    b = ctx.body(M + "best_cyclic")
+    ctx.scan(ctx.facts.with_closures(b.name))
+    c = ("param", 1, b.debug.get(1, ""))
+    r = norm(b.local_origin(0), g)
+    ok = is_call(r, "unwrap_or") and is_call(strip(r[2][0]), "Iterator::max")
+    if ok:
+        mp = strip(strip(r[2][0])[2][0])
+        rng = range_of(b, mp[2][0], g) if is_call(mp, "Iterator::map") else None
+        ok = rng is not None and rng[0] == ("int", 0) and not rng[2] and is_call(rng[1], "::len") and strip(rng[1][2][0]) == c
+        if ok:
+            res = closure_result(ctx.facts, mp[2][1], g)
+            ch = [x for x in subterms(res)] if res is not None else []
+            frm = [x for x in ch if x[0] == "agg" and x[1].endswith("RangeFrom::RangeFrom")]
+            to = [x for x in ch if x[0] == "agg" and x[1].endswith("RangeTo::RangeTo")]
+            chain = [x for x in ch if is_call(x, "Iterator::chain")]
+            ok = len(frm) == 1 and len(to) == 1 and len(chain) == 1 and contains(chain[0][2][0], lambda y: y == frm[0]) and contains(chain[0][2][1], lambda y: y == to[0]) and \
+                strip(frm[0][2][0])[:2] == ("param", 2) and strip(to[0][2][0])[:2] == ("param", 2)
+    ctx.ob("T9-boundary-shape", b.name, "max over all rotations", "ok" if ok else "violation",
+           "best_cyclic = (0..len).map(|i| corners[i..] ++ corners[..i]).max()" if ok else "best_cyclic is not the maximum over all rotations corners[i..] ++ corners[..i], i in 0..len(): " + show(r, 1)[:100])
+    tb = ctx.body(M + "trace_boundary")
+    ctx.scan([tb])
+    L = {n: l for l, n in tb.debug.items()}
+    bad = []
+    if "k" in L and "j" in L:
+        kl, jl = ("local", L["k"], "k"), ("local", L["j"], "j")
+        kd = [norm(d, g) for _, d in tb.all_defs_origins(L["k"])]
+        starts = sorted(eval_term_env(fold_std_ops(d), {x: 0 for x in subterms(d) if x[0] == "field" and x[1][0] == "variant"}) for d in kd if not contains(d, lambda y: y == kl))
+        vals = set()
+        for d in kd:
+            if contains(d, lambda y: y == kl):
+                continue
+            pay = [x for x in subterms(d) if x[0] == "field" and x[1][0] == "variant"]
+            for i in (0, 1, 2):
+                vals.add((i, eval_term_env(d, {p: i for p in pay})))
+        want = {(i, (i + 1) % 3) for i in range(3)} | {(i, (i + 2) % 3) for i in range(3)}
+        if vals != want:
+            bad.append("the two start directions are %s for i = 0, 1, 2; expected (i+1) mod 3 and (i+2) mod 3" % sorted(vals))
+        upd = [d for d in kd if contains(d, lambda y: y == kl)]
+        oku = len(upd) == 1 and all(eval_term_env(upd[0], {kl: k, jl: j}) == 3 - j - k for j in range(3) for k in range(3) if j != k)
+        if not oku:
+            bad.append("the third index is not updated as k := 3 - j - k")
+    else:
+        bad.append("locals j / k not found")
+    # sorted descending: sort + reverse on the result, in this order, before the return
+    srt = [bi for bi, t in tb.calls("slice::<impl [T]>::sort")]
+    rev = [bi for bi, t in tb.calls("slice::<impl [T]>::reverse")]
+    if not (len(srt) == 1 and len(rev) == 1 and tb.dominates(srt[0], rev[0])):
+        bad.append("the components are not sorted and then reversed")
+    # v > 1 guard on the corner push
+    okv = False
+    for bi, t in tb.calls("Vec::<T, A>::push"):
+        a = [strip(norm(tb.origin(x), g)) for x in t["args"]]
+        if a[0][0] == "local" and tb.debug.get(a[0][1]) == "corners":
+            fa = [atom_norm(x, g) for x in tb.facts_at(bi)]
+            okv = any(x[0] == "rel" and x[1] in ("Lt", "Le") and x[2][0] == "int" and lower_of(x) is not None and lower_of(x)[1] == 2 for x in fa)
+    if not okv:
+        bad.append("corners are not recorded exactly for v > 1")
+    ctx.ob("T9-boundary-shape", tb.name, "directions / third index / order / corner filter", "ok" if not bad else "violation",
+           "start directions (i+1 | i+2) mod 3, k := 3 - j - k, corners with v > 1, components sorted descending" if not bad else "; ".join(bad))
 
 
 def symbol_digits(ctx, g):
